@@ -12,7 +12,7 @@ if args and args[0] == '--tier':
 sel = [m for m in ms if not args or m['id'] in args or m['prop'] in args]
 res = []
 for m in sel:
-    if not m.get('passes_existing_tests', True):
+    if not m.get('passes_existing_tests', True) or m.get('equivalent'):
         continue
     path = os.path.join('/repo', m['file'])
     src = open(path, encoding='utf8').read()
